@@ -114,7 +114,8 @@ def regenerate():
     info = {"privconsts": "generated"}
     os.makedirs(GEN, exist_ok=True)
     h = file_hash(repo_inputs() + [os.path.join(ROOT, "tools", "dumpdata.c"),
-                                   os.path.join(ROOT, "tools", "dumpconsts.c")])
+                                   os.path.join(ROOT, "tools", "dumpconsts.c"),
+                                   os.path.join(ROOT, "tools", "c2coq.py")])
     if stamp_ok("gen", h) and os.path.exists(os.path.join(GEN, "Langs.v")):
         try:
             info = json.load(open(os.path.join(BUILD, "gen.info")))
@@ -143,6 +144,14 @@ def regenerate():
         # private macros renamed: use the committed copy of the pinned values
         shutil.copy(os.path.join(COQ, "Ref", "PrivConsts.v"), os.path.join(tmp, "PrivConsts.v"))
         info["privconsts"] = "fallback to Ref/PrivConsts.v (tools/dumpconsts.c no longer compiles)"
+    # logic translator: leaf functions of gf.h/gf.c/birthday.h/features.[ch] as Gallina (clang's AST as parser)
+    rc, out = sh([sys.executable, os.path.join(ROOT, "tools", "c2coq.py"), REPO, os.path.join(tmp, "CFuns.v")], timeout=300)
+    try:
+        info["c2coq"] = json.loads(out.strip().split("\n")[-1]) if rc == 0 else "failed: " + out[-500:]
+    except Exception:
+        info["c2coq"] = "failed: " + out[-500:]
+    if not os.path.exists(os.path.join(tmp, "CFuns.v")):
+        open(os.path.join(tmp, "CFuns.v"), "w").write("(* c2coq failed on this tree: %s *)\n" % out[-300:].replace("*)", "* )"))
     # remove stale W*.v (registry shrank)
     new = set(os.listdir(tmp))
     for f in os.listdir(GEN):
